@@ -354,7 +354,7 @@ func (c *Ctx) BoundedAlloc(desc string, entries, stop []string, src AllocSources
 				}
 			}
 			for _, ci := range callers[fn] {
-				args := ci.Common().Args
+				args := BaselineArgs(ci.Common())
 				if idx >= 0 && idx < len(args) {
 					if s := taint(args[idx], depth+1, seen); s != "" {
 						return s + " (passed by " + FnName(Outer(ci.Parent())) + ")"
@@ -581,7 +581,7 @@ func (p *Prog) TokSeq(fn *ssa.Function, vocab map[string]SeqTok, reader bool) []
 			if !ok || st.Tok == "" {
 				return
 			}
-			args := ci.Common().Args
+			args := BaselineArgs(ci.Common())
 			tok := st.Tok
 			if st.ConstArg >= 0 && st.ConstArg < len(args) {
 				tok += "/" + constArgString(args[st.ConstArg])
